@@ -139,6 +139,26 @@ pub fn run_case(rng: &mut Rng, nkeys: usize, envs_per_key: usize, bits: &[u8], t
             }
         }
     }
+    // the same bytes split differently into (salt, secret): a different key. Both derived in this
+    // process, one right after the other (the backends read the salt from the remote, so its length
+    // is whatever is stored there)
+    {
+        let all: Vec<u8> = (0..24).map(|_| rng.below(256) as u8).collect();
+        let (salt_a, secret_a) = (all[..16].to_vec(), all[16..].to_vec());
+        let (salt_b, secret_b) = (all[..17].to_vec(), all[17..].to_vec());
+        let key_a = Key::derive(&salt_a, &secret_a).unwrap();
+        let key_b = Key::derive(&salt_b, &secret_b).unwrap();
+        let vid = rng.next() as u128;
+        let env_a = key_a.seal(Uuid::from_u128(vid), b"boundary a".to_vec()).unwrap();
+        let env_b = key_b.seal(Uuid::from_u128(vid), b"boundary b".to_vec()).unwrap();
+        out.push((format!("KEY {} {}", h(&secret_a), h(&salt_a)), "key".into()));
+        out.push(open_line(&key_a, vid, &env_a));
+        out.push(tamper_line(&key_a, vid, &env_b));
+        out.push((format!("KEY {} {}", h(&secret_b), h(&salt_b)), "key".into()));
+        out.push(open_line(&key_b, vid, &env_b));
+        out.push(tamper_line(&key_b, vid, &env_a));
+        bump("boundary_pairs", 1);
+    }
     out.push(("LEAKCHECK".into(), if leak { "leak FOUND".into() } else { "leak none".into() }));
     out.push((
         "NONCECHECK".into(),
